@@ -147,6 +147,10 @@ def _load_from_file_system(hashed_grammar, path, p_time, cache_path=None):
                 gc.enable()
         if not isinstance(module_cache_item, _NodeCacheItem):
             return None
+        if module_cache_item.change_time is None or p_time > module_cache_item.change_time:
+            # The pickle may have been written after the file changed again
+            # (its own modification time is then newer than the file's).
+            return None
     except FileNotFoundError:
         return None
     except Exception:
@@ -176,10 +180,15 @@ def _set_cache_item(hashed_grammar, path, module_cache_item):
     parser_cache.setdefault(hashed_grammar, {})[path] = module_cache_item
 
 
-def try_to_save_module(hashed_grammar, file_io, module, lines, pickling=True, cache_path=None):
+def try_to_save_module(hashed_grammar, file_io, module, lines, pickling=True, cache_path=None,
+                       change_time=None):
     path = file_io.path
     try:
-        p_time = None if path is None else file_io.get_last_modified()
+        if change_time is not None:
+            # The modification time that was taken before the file was read.
+            p_time = change_time
+        else:
+            p_time = None if path is None else file_io.get_last_modified()
     except OSError:
         p_time = None
         pickling = False
